@@ -173,35 +173,43 @@ def PV.asInt : PV → Option Int
   | _ => Option.none
 
 mutual
-/-- `a == b` for non-symbolic values (never raises) -/
+/-- `a == b` for non-symbolic values (never raises); structural on the first argument -/
 def pyEq : PV → PV → Bool
-  | .none, .none => true
-  | .bool a, .bool b => a == b
-  | .bool a, .int b => (if a then 1 else 0) == b
-  | .int a, .bool b => a == (if b then 1 else 0)
-  | .int a, .int b => a == b
-  | .str a, .str b => a == b
-  | .list a, .list b => pyEqList a b
-  | .tuple a, .tuple b => pyEqList a b
-  | .set a, .set b => pyEqList a b
-  | .dict a, .dict b => pyEqDict a b
-  | .record f a k, .record g b l => f == g && pyEqList a b && pyEqKw k l
-  | .fn f a k, .fn g b l => f == g && pyEqList a b && pyEqKw k l
-  | .missing, .missing => true
-  | .type a, .type b => a == b
-  | _, _ => false
+  | .none, b => (match b with | .none => true | _ => false)
+  | .bool a, b => (match b with
+      | .bool c => a == c
+      | .int c => (if a then 1 else 0) == c
+      | _ => false)
+  | .int a, b => (match b with
+      | .int c => a == c
+      | .bool c => a == (if c then 1 else 0)
+      | _ => false)
+  | .str a, b => (match b with | .str c => a == c | _ => false)
+  | .list a, b => (match b with | .list c => pyEqList a c | _ => false)
+  | .tuple a, b => (match b with | .tuple c => pyEqList a c | _ => false)
+  | .set a, b => (match b with | .set c => pyEqList a c | _ => false)
+  | .dict a, b => (match b with | .dict c => pyEqDict a c | _ => false)
+  | .record f a k, b => (match b with | .record g c l => f == g && pyEqList a c && pyEqKw k l | _ => false)
+  | .fn f a k, b => (match b with | .fn g c l => f == g && pyEqList a c && pyEqKw k l | _ => false)
+  | .missing, b => (match b with | .missing => true | _ => false)
+  | .type a, b => (match b with | .type c => a == c | _ => false)
+  | .sym _ _ _, _ => false
+  | .clo _ _ _, _ => false
+  | .comp _, _ => false
+  | .exc _, _ => false
+termination_by structural a => a
 def pyEqList : List PV → List PV → Bool
-  | [], [] => true
-  | x :: xs, y :: ys => pyEq x y && pyEqList xs ys
-  | _, _ => false
+  | [], ys => ys.isEmpty
+  | x :: xs, ys => (match ys with | y :: ys' => pyEq x y && pyEqList xs ys' | [] => false)
+termination_by structural a => a
 def pyEqKw : List (String × PV) → List (String × PV) → Bool
-  | [], [] => true
-  | (k, x) :: xs, (k', y) :: ys => k == k' && pyEq x y && pyEqKw xs ys
-  | _, _ => false
+  | [], ys => ys.isEmpty
+  | (k, x) :: xs, ys => (match ys with | (k', y) :: ys' => k == k' && pyEq x y && pyEqKw xs ys' | [] => false)
+termination_by structural a => a
 def pyEqDict : List (PV × PV) → List (PV × PV) → Bool
-  | [], [] => true
-  | (k, x) :: xs, (k', y) :: ys => pyEq k k' && pyEq x y && pyEqDict xs ys
-  | _, _ => false
+  | [], ys => ys.isEmpty
+  | (k, x) :: xs, ys => (match ys with | (k', y) :: ys' => pyEq k k' && pyEq x y && pyEqDict xs ys' | [] => false)
+termination_by structural a => a
 end
 
 def memPV (x : PV) (xs : List PV) : Bool := xs.any (fun y => pyEq x y)
@@ -255,11 +263,36 @@ def pyIs : PV → PV → Bool
   | .type a, .type b => a == b
   | _, _ => false
 
+/-- `xs` occurs as a contiguous block of `ys` (`a in b` for strings) -/
+def isInfixChars (xs : List Char) : List Char → Bool
+  | [] => xs.isEmpty
+  | y :: ys => xs.isPrefixOf (y :: ys) || isInfixChars xs ys
+
 def cmpInt (op : String) (a b : Int) : Bool :=
   if op == "lt" then a < b else if op == "lte" then a ≤ b else if op == "gt" then a > b else a ≥ b
 
 def cmpStr (op : String) (a b : String) : Bool :=
   if op == "lt" then a < b else if op == "lte" then a ≤ b else if op == "gt" then a > b else a ≥ b
+
+/-- ordering of two non-container values -/
+def cmpScalar (op : String) (a b : PV) : Except Err PV :=
+  match a.asInt, b.asInt with
+  | some x, some y => .ok (.bool (cmpInt op x y))
+  | _, _ =>
+    match a, b with
+    | .str x, .str y => .ok (.bool (cmpStr op x y))
+    | .list _, .list _ => limit
+    | .tuple _, .tuple _ => limit
+    | .set _, .set _ => limit
+    | .sym _ _ _, _ => limit
+    | _, .sym _ _ _ => limit
+    | _, _ => raiseCls "TypeError"
+
+/-- ordering of two lists / tuples: the first pair of unequal members decides, else the lengths
+    (members that are themselves containers are outside the model) -/
+def cmpSeq (op : String) : List PV → List PV → Except Err PV
+  | x :: xs, y :: ys => if pyEq x y then cmpSeq op xs ys else cmpScalar op x y
+  | xs, ys => .ok (.bool (cmpInt op xs.length ys.length))
 
 /-- `a op b` -/
 def pyBinop (op : String) (a b : PV) : Except Err PV :=
@@ -276,18 +309,16 @@ def pyBinop (op : String) (a b : PV) : Except Err PV :=
     | .tuple xs => .ok (.bool (memPV a xs != neg))
     | .set xs => .ok (.bool (memPV a xs != neg))
     | .dict kvs => .ok (.bool ((dictGet a kvs).isSome != neg))
-    | .str _ => (match a with | .str _ => limit | _ => raiseCls "TypeError")
+    | .str t => (match a with
+      | .str u => .ok (.bool (isInfixChars u.toList t.toList != neg))
+      | _ => raiseCls "TypeError")
     | _ => raiseCls "TypeError"
   else if op == "lt" || op == "lte" || op == "gt" || op == "gte" then
-    match a.asInt, b.asInt with
-    | some x, some y => .ok (.bool (cmpInt op x y))
-    | _, _ =>
-      match a, b with
-      | .str x, .str y => .ok (.bool (cmpStr op x y))
-      | .list _, .list _ => limit
-      | .tuple _, .tuple _ => limit
-      | .set _, .set _ => limit
-      | _, _ => raiseCls "TypeError"
+    match a, b with
+    | .list x, .list y => cmpSeq op x y
+    | .tuple x, .tuple y => cmpSeq op x y
+    | .set _, .set _ => limit
+    | _, _ => cmpScalar op a b
   else
     match a.asInt, b.asInt with
     | some x, some y =>
@@ -618,10 +649,10 @@ def callV (cx : Ctx) : Nat → PV → List PV → List (String × PV) → Except
       eval cx fuel (b ++ cenv) body
     | .fn "%partial" (g :: bpos) bkw => callV cx fuel g (bpos ++ pos) (bkw ++ kw)
     | .fn name bpos bkw =>
-      match stripPrefix? "helper:" name with
-      | some h =>
+      match cx.table.find? (fun r => "helper:" ++ r.name == name) with
+      | some row =>
         (match pos, kw with
-         | [x], [] => callHelper cx fuel h bpos bkw x
+         | [x], [] => callHelper cx fuel row.name bpos bkw x
          | _, _ => raiseCls "TypeError")
       | Option.none => callNamed cx fuel name (bpos ++ pos) (bkw ++ kw)
     | .comp fs => (match pos, kw with
@@ -724,14 +755,11 @@ def allValues : List PV → Bool → Except Err PV
 def callNamed (cx : Ctx) : Nat → String → List PV → List (String × PV) → Except Err PV
   | 0, _, _, _ => outOfFuel
   | fuel + 1, name, pos, kw =>
-    match stripPrefix? "free:" name, stripPrefix? "prim:" name with
-    | some f, _ => .ok (.record f pos kw)
-    | _, some pn =>
-      (match cx.prims.find? (fun p => p.1 == pn) with
-       | some (_, ps, body) => do
-         let b ← bindFormals ps pos kw
-         eval cx fuel b body
-       | Option.none => limit)
+    match cx.prims.find? (fun p => "prim:" ++ p.1 == name), stripPrefix? "free:" name with
+    | some (_, ps, body), _ => do
+      let b ← bindFormals ps pos kw
+      eval cx fuel b body
+    | _, some f => .ok (.record f pos kw)
     | _, _ =>
     match name, pos, kw with
     | "method:items", [.dict kvs], [] => .ok (.list (kvs.map fun e => .tuple [e.1, e.2]))
@@ -867,14 +895,17 @@ def runHelper (cx : Ctx) (fuel : Nat) (h : String) (vals : List (String × PV)) 
         | .plain, Option.none => raiseCls "TypeError")
     eval cx fuel (("%in", x) :: ds) row.body
 
+/-- the function of a helper's `PartialApplication`: the documented operation applied to the
+    input (the one positional argument) and the evaluated bindings (by name) -/
+def helperPrim (cx : Ctx) (h : String) : List PV → List (String × PV) → Except Err PV :=
+  fun pos kw => match pos with
+    | [x] => runHelper cx FUEL h kw x
+    | _ => raiseCls "TypeError"
+
 /-- `helper(**bindings)` as a step: a `PartialApplication` whose keyword parameters are the
     helper's bindings and whose function is the helper's documented operation -/
 def helperStep (cx : Ctx) (tag : Nat) (h : String) (bs : List (String × Binding)) : Step Opts PV :=
-  .partialApp tag
-    (fun pos kw => match pos with
-      | [x] => runHelper cx FUEL h kw x
-      | _ => raiseCls "TypeError")
-    [] (bs.map fun b => (b.1, b.2.toParam))
+  .partialApp tag (helperPrim cx h) [] (bs.map fun b => (b.1, b.2.toParam))
 
 /-! ## 4. the hand-written specification: one row per public helper, from the docstrings -/
 
